@@ -406,9 +406,26 @@ func (c *c17) deliver(ch *kernel.Chooser) string {
 		c.o.Fault("token-endpoint-" + tokenFault)
 	}
 	var r *world.Resp
-	if useJar {
+	// the response may reach the callback as a POST (response_mode=form_post: the provider's page posts code and state)
+	byPost := ch.Bool(1, 5)
+	postURL, postForm := cbURL, url.Values{}
+	if byPost {
+		if pu, err := url.Parse(cbURL); err == nil {
+			postForm = pu.Query()
+			pu.RawQuery = ""
+			postURL = pu.String()
+		}
+		variant += "+by-post"
+		c.o.Probe("callbacks-delivered-by-post")
+	}
+	switch {
+	case byPost && useJar:
+		r = b.PostForm(postURL, postForm)
+	case byPost:
+		r = b.PostFormWithCookies(postURL, postForm, presented)
+	case useJar:
 		r = b.Get(cbURL)
-	} else {
+	default:
 		r = b.GetWithCookies(cbURL, presented)
 	}
 	w.Net.Fault, w.Net.Corrupt = nil, nil
@@ -468,7 +485,7 @@ func (c *c17) deliver(ch *kernel.Chooser) string {
 		}
 	}
 	// progress: the honest, first delivery in the right browser with fresh cookies completes the login
-	if variant == "honest" && tokenFault == "" && a.delivered == 1 && c.latestInBrowser(a) && (c.maxAge == 0 || time.Since(a.startedAt) < time.Duration(c.maxAge-2)*time.Second) {
+	if strings.TrimSuffix(variant, "+by-post") == "honest" && tokenFault == "" && a.delivered == 1 && c.latestInBrowser(a) && (c.maxAge == 0 || time.Since(a.startedAt) < time.Duration(c.maxAge-2)*time.Second) {
 		if len(cbAfter) == len(cbBefore) {
 			c.o.Probe("honest-login-failed")
 			c.o.Logf("  honest login failed: %d %s", r.Status, firstLine(r.Body))
